@@ -3,6 +3,7 @@
   tables `r`, `r_` of the hand model's `computeR` (Model/Ntt.lean).
 -/
 import GoldilocksVerif.Lemmas.BridgeNttBasic
+import GoldilocksVerif.Lemmas.BridgeNttTac
 
 namespace GoldilocksVerif.BridgeNtt
 open GoldilocksVerif Gen.NttGen Gen.Scalar
@@ -126,19 +127,6 @@ theorem computeR_arrays (pinv : BitVec 64) (N : Nat) (hN : 1 ≤ N) :
   obtain ⟨s1, s2⟩ := rangeAux_size pinv (N - 1) 0 #[one__r] #[pinv]
   rw [pad_full _ _ (by rw [s1]; simp; omega), pad_full _ _ (by rw [s2]; simp; omega)]
 
-theorem computeR_loop_body (H : Heap) (self : NTT_Goldilocks) (dp : BitVec 64) (b : Nat)
-    (hr : self.r = ⟨b, 0⟩) (hr_ : self.r_ = ⟨b + 1, 0⟩) (hb : b + 1 < H.size)
-    (hp1 : self.powTwoInv.blk ≠ b) (hp2 : self.powTwoInv.blk ≠ b + 1) (i : Nat) (s : Block × Block) :
-    NTT_computeR_loop1 self dp i (Heap.R2 H b (b + 1) s) =
-      some (Heap.R2 H b (b + 1)
-        (computeRStep ((H.block self.powTwoInv.blk).getD (self.powTwoInv.off + dp.toNat) 0#64) i s)) := by
-  have hbc : b ≠ b + 1 := by omega
-  unfold NTT_computeR_loop1 computeRStep
-  simp only [hr, hr_, Heap.set_eq, Heap.get_def, Nat.zero_add]
-  rw [Heap.R2_block_fst _ _ _ _ hbc (by omega), Heap.R2_setBlock_fst _ _ _ _ _ hbc]
-  rw [Heap.R2_block_fst _ _ _ _ hbc (by omega), Heap.R2_block_snd _ _ _ _ hb,
-    Heap.R2_block_other _ _ _ _ _ hp1 hp2, Heap.R2_setBlock_snd]
-
 /-- **computeR**: for 1 ≤ N < 2^31 the generated function returns; the two tables are the hand model's, in two new blocks
     at the end of the heap; `r`, `r_`, `r_N` of the object point to them; nothing else changes -/
 theorem computeR_gen (fuel : Nat) (hf : log2Fuel ≤ fuel) (hp : Heap) (self : NTT_Goldilocks) (o : Model.Ntt.Obj) (N : Nat)
@@ -182,20 +170,27 @@ theorem computeR_gen (fuel : Nat) (hf : log2Fuel ≤ fuel) (hp : Heap) (self : N
   have hp1 : self.powTwoInv.blk ≠ b := by omega
   have hp2 : self.powTwoInv.blk ≠ b + 1 := by omega
   simp only [Heap.alloc_fst, Heap.alloc_snd, Heap.size_push]
-  rw [hpush]
-  simp only [Heap.set_eq, Heap.get_def, Nat.zero_add, Nat.add_zero]
-  rw [Heap.R2_block_fst _ _ _ _ hbc (by omega), Heap.R2_setBlock_fst _ _ _ _ _ hbc,
-    Heap.R2_block_snd _ _ _ _ (by omega), Heap.R2_block_other _ _ _ _ _ hp1 hp2, Heap.R2_setBlock_snd]
-  dsimp only
+  -- every heap of the function is `R2 H b (b+1) (content of r, content of r_)`; the table `powTwoInv` is read from the base
+  -- heap, wherever the read stands (in every iteration, or once in front of the loop)
+  have hb1 : b < H.size := by omega
+  have hb2 : b + 1 < H.size := by omega
+  simp only [hpush]
+  simp only [Heap.set_eq, Heap.get_def, Nat.zero_add, Nat.add_zero, show hp.size = b from rfl]
+  simp (disch := assumption) only [Heap.R2_block_fst, Heap.R2_block_snd, Heap.R2_block_other, Heap.R2_setBlock_fst,
+    Heap.R2_setBlock_snd]
+  try dsimp only
   rw [Loop.rangeM_rep (R := Heap.R2 H b (b + 1))
     (f := computeRStep ((H.block self.powTwoInv.blk).getD (self.powTwoInv.off +
-      (BitVec.setWidth 64 (BitVec.ofNat 32 (Model.Ntt.log2 N))).toNat) 0#64))
-    (NTT_computeR_loop1 { self with r := ⟨hp.size, 0⟩, r_ := ⟨hp.size + 1, 0⟩, r_N := BitVec.ofNat 64 N }
-      (BitVec.setWidth 64 (BitVec.ofNat 32 (Model.Ntt.log2 N)))) 1 N
-    (fun i s _ _ => computeR_loop_body H { self with r := ⟨hp.size, 0⟩, r_ := ⟨hp.size + 1, 0⟩, r_N := BitVec.ofNat 64 N }
-      _ b rfl rfl (by omega) hp1 hp2 i s)]
-  simp only [Option.bind_some]
-  rw [hHblk _ hblk, hpti, hoff, hdp, Nat.zero_add, computeR_arrays _ N hN, ← hpush]
-  rfl
+      (BitVec.setWidth 64 (BitVec.ofNat 32 (Model.Ntt.log2 N))).toNat) 0#64)) _ 1 N]
+  · simp only [Option.bind_some]
+    rw [hHblk _ hblk, hpti, hoff, hdp, Nat.zero_add, computeR_arrays _ N hN]
+    rfl
+  · -- the loop body, whatever its parameter list
+    intro i s _ _
+    unfold_loops
+    unfold computeRStep
+    simp only [Heap.set_eq, Heap.get_def, Nat.zero_add, show hp.size = b from rfl]
+    simp (disch := assumption) only [Heap.R2_block_fst, Heap.R2_block_snd, Heap.R2_block_other, Heap.R2_setBlock_fst,
+      Heap.R2_setBlock_snd]
 
 end GoldilocksVerif.BridgeNtt
